@@ -6,11 +6,10 @@ for a concrete (program, state, key, rounds) on which the program differs from t
 import os, sys, subprocess, tempfile, shutil, hashlib, json, random
 from tjlib import *
 import asm2lean
+import avr2lean
 
 CONFIG_ORDER = ['rv32i', 'rv32e', 'rv64i', 'armv6', 'armv6m', 'armv7m', 'xtensa_w', 'xtensa_c0']
-NOT_PROVED = {
-    'avr5': 'tinyjambu-{128,192,256}-asm-avr5.S: needs an 8-bit machine with carry; not built yet',
-}
+NOT_PROVED = {}
 MASK = 0xFFFFFFFF
 
 # ------------------------------------------------------------------ reference permutation (word level, = TJ.Impl.permC, proved = Spec)
@@ -86,6 +85,64 @@ def search_counterexample(t, rng, tries=400):
         for r in t['cs']:
             if regs[r] != regs0[r]:
                 return {'rounds': rounds, 'callee_saved_register_clobbered': 'x%d' % r, 'before': '%08x' % regs0[r], 'after': '%08x' % regs[r]}
+    return None
+
+# ------------------------------------------------------------------ AVR5: interpreter (mirrors TJ.Asm.Avr.execD / step) and search
+def run_avr(mi, regs, mem, stk, fuel=10 ** 7):
+    lab = {m[1]: i for i, m in enumerate(mi) if m[0] == 'label'}
+    pc = 0; c = False; z = False
+    def zp(): return ((regs[31] << 8) | regs[30]) & 0xFFFF
+    while fuel > 0:
+        fuel -= 1
+        m = mi[pc]; k = m[0]
+        if k == 'mov': regs[m[1]] = regs[m[2]]
+        elif k == 'movw': regs[m[1]] = regs[m[2]]; regs[(m[1] + 1) % 32] = regs[(m[2] + 1) % 32]
+        elif k == 'eor': regs[m[1]] ^= regs[m[2]]; z = regs[m[1]] == 0
+        elif k == 'and': regs[m[1]] &= regs[m[2]]; z = regs[m[1]] == 0
+        elif k == 'lsl': v = regs[m[1]]; c = bool(v & 0x80); regs[m[1]] = (v << 1) & 0xFF; z = regs[m[1]] == 0
+        elif k == 'lsr': v = regs[m[1]]; c = bool(v & 1); regs[m[1]] = v >> 1; z = regs[m[1]] == 0
+        elif k == 'rol': v = regs[m[1]]; nc = bool(v & 0x80); regs[m[1]] = ((v << 1) & 0xFF) | (1 if c else 0); c = nc; z = regs[m[1]] == 0
+        elif k == 'ror': v = regs[m[1]]; nc = bool(v & 1); regs[m[1]] = (v >> 1) | (0x80 if c else 0); c = nc; z = regs[m[1]] == 0
+        elif k == 'dec': regs[m[1]] = (regs[m[1]] - 1) & 0xFF; z = regs[m[1]] == 0
+        elif k == 'ldz': regs[m[1]] = mem.get((zp() + m[2]) & 0xFFFF, 0)
+        elif k == 'stz': mem[(zp() + m[1]) & 0xFFFF] = regs[m[2]]
+        elif k == 'push': stk.append(regs[m[1]])
+        elif k == 'pop': regs[m[1]] = stk.pop() if stk else 0
+        elif k == 'breq':
+            if z: pc = lab[m[1]]; continue
+        elif k == 'brne':
+            if not z: pc = lab[m[1]]; continue
+        elif k == 'rjmp': pc = lab[m[1]]; continue
+        elif k == 'ret': return True
+        pc += 1
+    return False
+
+def search_counterexample_avr(t, rng, tries=400):
+    """random states/keys/round counts through the AVR interpreter vs the reference permutation"""
+    nk = avr2lean.NK[t['bits']]; mi = t['micro']
+    for n in range(tries):
+        rounds = rng.choice(list(range(1, 25)) + [5, 8, 9, 10, 20, 255, 256])
+        st = [rng.getrandbits(32) for _ in range(4)]; key = [rng.getrandbits(32) for _ in range(nk)]
+        regs = [rng.getrandbits(8) for _ in range(32)]
+        p = 0x0200; regs[24] = p & 0xFF; regs[25] = p >> 8; regs[22] = rounds & 0xFF
+        mem = {}
+        for i, w in enumerate(st + key):
+            for b in range(4): mem[p + 4 * i + b] = (w >> (8 * b)) & 0xFF
+        mem0 = dict(mem); regs0 = list(regs); stk = [rng.getrandbits(8) for _ in range(4)]; stk0 = list(stk)
+        try:
+            ok = run_avr(mi, regs, mem, stk)
+        except Exception as e:
+            return {'rounds': rounds, 'state': st, 'key': key, 'error': 'interpreter: %r' % e}
+        want = perm_ref(nk, key, st, rounds)
+        got = [sum(mem.get(p + 4 * i + b, 0) << (8 * b) for b in range(4)) for i in range(4)]
+        if not ok or got != want:
+            return {'rounds': rounds, 'state': ['%08x' % x for x in st], 'key_preinverted': ['%08x' % x for x in key], 'got': ['%08x' % x for x in got],
+                    'expected': ['%08x' % x for x in want], 'returned': ok}
+        for adr in mem:
+            if not (p <= adr < p + 16) and mem[adr] != mem0.get(adr): return {'rounds': rounds, 'memory_clobbered_at': hex(adr)}
+        if stk != stk0: return {'rounds': rounds, 'stack_not_restored': True}
+        for r in list(range(2, 18)) + [28, 29]:
+            if regs[r] != regs0[r]: return {'rounds': rounds, 'callee_saved_register_clobbered': 'r%d' % r, 'before': '%02x' % regs0[r], 'after': '%02x' % regs[r]}
     return None
 
 # ------------------------------------------------------------------ generators and selection
@@ -166,6 +223,16 @@ def regenerate():
                 out[name] = 'translation failed: %s' % e
                 path = os.path.join(asm2lean.GEN, name + '.lean')
                 if os.path.exists(path): os.unlink(path)
+    for bits in (128, 192, 256):
+        name = 'avr5_%d' % bits
+        try:
+            t = avr2lean.translate(bits); t['avr'] = True
+            avr2lean.emit(t)
+            out[name] = t; names.append(name)
+        except avr2lean.TranslateError as e:
+            out[name] = 'translation failed: %s' % e
+            path = os.path.join(asm2lean.GEN, name + '.lean')
+            if os.path.exists(path): os.unlink(path)
     root = ''.join('import TJ.Gen.Asm.%s\n' % n for n in names)
     rp = os.path.join(LEAN, 'TJ', 'Gen', 'AsmAll.lean')
     if not os.path.exists(rp) or open(rp).read() != root: open(rp, 'w').write(root)
@@ -195,22 +262,22 @@ def check(ctx):
             proved.append(n); ctx.proof['axioms'][thm] = axs.get(thm)
         else:
             failed.append(n)
-            cex = search_counterexample(t, rng, 2000)
+            cex = (search_counterexample_avr if t.get('avr') else search_counterexample)(t, rng, 2000)
             if cex is not None:
                 ctx.fail('backend-differs-from-spec', ['asm.run %s' % n], json.dumps(cex), 'state words = specification permutation, frame and callee-saved registers preserved',
                          'program %s (%s) differs from the specification on this input; replayed on the micro-op interpreter of tools/backends.py '
-                         '(mirror of TJ.Asm.Machine; no hardware or emulator for this ISA exists in the sandbox)' % (n, os.path.basename(t['path'])), variant='asm')
+                         '(mirror of TJ.Asm.Machine / TJ.Asm.Avr; no hardware or emulator for this ISA exists in the sandbox)' % (n, os.path.basename(t['path'])), variant='asm')
             else:
                 ctx.broken_proofs.append('%s: theorem TJ.Gen.Asm.%s.correct no longer checks (%s)' % (n, n, 'axioms=%s' % axs.get(thm) if built.get(n) else 'build failed'))
     # every proved program also runs through the interpreter (validates the interpreter used for counterexample search)
     sanity = 0
     for n in proved[:]:
-        if search_counterexample(progs[n], rng, 20 if ctx.tier == 'quick' else 300) is not None:
+        if (search_counterexample_avr if progs[n].get('avr') else search_counterexample)(progs[n], rng, 20 if ctx.tier == 'quick' else 300) is not None:
             ctx.broken_proofs.append('%s: micro-op interpreter disagrees with a proved program (interpreter bug?)' % n)
         sanity += 1
     ctx.proof['obligations'] += len(progs); ctx.proof['discharged'] += len(proved)
     ctx.proof['theorems'] += ['TJ.Gen.Asm.%s.correct' % n for n in progs]
-    ctx.proof['checker_cmd'] += '; tools/asm2lean.py (regenerate) + lake build TJ.Gen.Asm.* + #print axioms'
+    ctx.proof['checker_cmd'] += '; tools/asm2lean.py + tools/avr2lean.py (regenerate) + lake build TJ.Gen.Asm.* + #print axioms'
     gen = generator_check(ctx)
     for f in gen['different'][:3]:
         ctx.fail('generated-file-differs', ['generator-diff %s' % f], 'checked-in file differs from generator output', 'byte-identical', 'the checked-in %s is not what the bundled generator emits' % f, variant='asm')
@@ -221,7 +288,7 @@ def check(ctx):
     ctx.extra_cov['backends'] = {'proved': proved, 'failed': failed, 'not_proved': NOT_PROVED, 'c_backends': 'TJ.Props.C02.permutation_is_nlfsr (hand model of the 3 C files, tied by the perm stream)',
                                  'generator_identical': len(gen['identical']), 'generator_different': gen['different'], 'selection_targets': len(table), 'interpreter_sanity_runs': sanity}
     ctx.extra_cov['exhaustive'] = False
-    ctx.assume += ['TJ.Asm.{RiscV,Arm,Xtensa}: this project\'s reading of the instruction semantics and calling conventions (not validated by execution: no emulator exists here)',
+    ctx.assume += ['TJ.Asm.{RiscV,Arm,Xtensa,Avr}: this project\'s reading of the instruction semantics and calling conventions (not validated by execution: no emulator exists here)',
                    'memory idealisation of TJ.Asm.Machine (word-granular, stack disjoint from the state object)',
                    'RV64I back ends (rv64i_*) are proved on their 32-bit projection: the W-form shifts, lw/sw and bitwise operations act on the low words exactly as the RV32 forms (per-instruction lemmas in lean/TJ/Asm/RV64.lean); the lifting to whole executions, 64-bit address arithmetic and the 64-bit compare of the round counter (exact for counts below 2^31) are assumptions, not theorems',
-                   'AVR5 back ends are translated by no theorem yet: listed under coverage.backends.not_proved']
+                   'AVR5 back ends (avr5_*): 8-bit machine TJ.Asm.Avr (byte memory through Z + displacement, stack as a separate list); the round count is the low byte of the second argument (1..256, 256 = byte 0), which covers every count the library passes']
